@@ -1290,6 +1290,7 @@ func (bq *InMemoryBuildQueue) getCurrentTime() *timestamppb.Timestamp {
 // enter acquires the lock on the InMemoryBuildQueue and runs any
 // cleanup tasks that should be executed prior to mutating its state.
 func (bq *InMemoryBuildQueue) enter(t time.Time) {
+	bq.verifEnter()
 	bq.lock.Lock()
 	if t.After(bq.now) {
 		bq.now = t
@@ -1299,6 +1300,7 @@ func (bq *InMemoryBuildQueue) enter(t time.Time) {
 
 // leave releases the lock on the InMemoryBuildQueue.
 func (bq *InMemoryBuildQueue) leave() {
+	bq.verifLeave()
 	bq.lock.Unlock()
 }
 
